@@ -989,6 +989,7 @@ bool femm::FemmProblem::createRadius(int n, double r)
         // we can apply it to the newly created arc later;
         ar.InGroup       =arclist[arc[0]]->InGroup;
         ar.BoundaryMarkerName=arclist[arc[0]]->BoundaryMarkerName;
+        ar.BoundaryMarker=arclist[arc[0]]->BoundaryMarker;
 
         // get the center and radius of the circle associated with the arc;
         getCircle(*arclist[arc[0]],c,rc);
@@ -1120,6 +1121,7 @@ bool femm::FemmProblem::createRadius(int n, double r)
         // inherit the boundary condition from one of the segments
         // so that we can apply it to the newly created arc later;
         ar.BoundaryMarkerName=linelist[seg[0]]->BoundaryMarkerName;
+        ar.BoundaryMarker=linelist[seg[0]]->BoundaryMarker;
         ar.InGroup       =linelist[seg[0]]->InGroup;
 
         // add new nodes at ends of radius
@@ -1208,6 +1210,7 @@ bool femm::FemmProblem::createRadius(int n, double r)
         // inherit the boundary condition from one of the segments
         // so that we can apply it to the newly created arc later;
         ar.BoundaryMarkerName=arclist[arc[0]]->BoundaryMarkerName;
+        ar.BoundaryMarker=arclist[arc[0]]->BoundaryMarker;
         ar.InGroup=arclist[arc[0]]->InGroup;
 
         // add new nodes at ends of radius
